@@ -9,7 +9,7 @@ LIFE = {'Reset', 'open', 'close', 'put', 'scan', 'backup', 'backup_scan', 'copy'
 
 def run_life(exe, seed, steps):
     d = c.scratch('life'); tr = os.path.join(d, 'trace.ndjson')
-    p = c.sh([exe, str(seed), str(steps), tr, os.path.join(d, 'base')], timeout=120)
+    p = c.sh([exe, str(seed), str(steps), tr, os.path.join(d, 'base')], timeout=400)
     return d, tr, p
 
 
